@@ -63,17 +63,19 @@ class ScopeContext:
         exc_val: BaseException | None,
         exc_tb: TracebackType | None,
     ) -> None:
-        self._metrics_context.__exit__(
-            exc_type=exc_type,
-            exc_val=exc_val,
-            exc_tb=exc_tb,
-        )
+        try:
+            self._metrics_context.__exit__(
+                exc_type=exc_type,
+                exc_val=exc_val,
+                exc_tb=exc_tb,
+            )
 
-        self._state_context.__exit__(
-            exc_type=exc_type,
-            exc_val=exc_val,
-            exc_tb=exc_tb,
-        )
+        finally:
+            self._state_context.__exit__(
+                exc_type=exc_type,
+                exc_val=exc_val,
+                exc_tb=exc_tb,
+            )
 
     async def __aenter__(self) -> None:
         await self._task_group_context.__aenter__()
@@ -95,30 +97,37 @@ class ScopeContext:
         exc_val: BaseException | None,
         exc_tb: TracebackType | None,
     ) -> None:
-        if self._disposables is not None:
-            await self._disposables.__aexit__(
-                exc_type=exc_type,
-                exc_val=exc_val,
-                exc_tb=exc_tb,
-            )
+        # each step has to run no matter how the previous one ended (errors, cancellation)
+        try:
+            if self._disposables is not None:
+                await self._disposables.__aexit__(
+                    exc_type=exc_type,
+                    exc_val=exc_val,
+                    exc_tb=exc_tb,
+                )
 
-        await self._task_group_context.__aexit__(
-            exc_type=exc_type,
-            exc_val=exc_val,
-            exc_tb=exc_tb,
-        )
+        finally:
+            try:
+                await self._task_group_context.__aexit__(
+                    exc_type=exc_type,
+                    exc_val=exc_val,
+                    exc_tb=exc_tb,
+                )
 
-        self._metrics_context.__exit__(
-            exc_type=exc_type,
-            exc_val=exc_val,
-            exc_tb=exc_tb,
-        )
+            finally:
+                try:
+                    self._metrics_context.__exit__(
+                        exc_type=exc_type,
+                        exc_val=exc_val,
+                        exc_tb=exc_tb,
+                    )
 
-        self._state_context.__exit__(
-            exc_type=exc_type,
-            exc_val=exc_val,
-            exc_tb=exc_tb,
-        )
+                finally:
+                    self._state_context.__exit__(
+                        exc_type=exc_type,
+                        exc_val=exc_val,
+                        exc_tb=exc_tb,
+                    )
 
 
 @final
